@@ -103,6 +103,9 @@ func evaluate(r *vh.Run, c connCase, p *plan, v h1x.View, got []h1x.Received, se
 
 	// ---- client side: responses 0..expect-1 in order, then EOF
 	expect := p.Last + 1
+	if p.Trunc {
+		expect = p.Last // the last request was never finished: no response is owed for it
+	}
 	if sent < expect {
 		expect = sent // the connection ended early; judged below
 	}
@@ -167,13 +170,28 @@ func evaluate(r *vh.Run, c connCase, p *plan, v h1x.View, got []h1x.Received, se
 			}
 		}
 	}
-	if sent < p.Last+1 && parsed == expect {
+	if p.Trunc {
+		// The client stopped inside the body of request #Last and shut down its
+		// sending direction. What it receives afterwards is not judged. The
+		// origin must never see that request as a complete, well-framed one: its
+		// body cannot be what the client sent, the client never sent all of it.
+		q := p.Reqs[p.Last]
+		for _, g := range got {
+			if g.Early || g.Msg.Outcome != h1x.StComplete || targetID(g.Msg.Target) != p.Last {
+				continue
+			}
+			add("request-body", "client-unfinished-upload", fmt.Sprintf("the client stopped after %d of %d bytes of request #%d (%s, %s body of %d bytes, cut %s) and half-closed, but the origin received a complete well-framed request with a %s body of %d bytes",
+				p.TruncCut, p.TruncFull, p.Last, q.Method, q.Framing, len(q.Body), p.TruncReg, g.Msg.Framing, len(g.Msg.Body)))
+			break
+		}
+	}
+	if sent < p.Last+1 && parsed == expect && !(p.Trunc && sent >= p.Last) {
 		// the sequential client had to stop early: every request it sent was
 		// answered, but the connection was no longer usable for the next one
 		add("close-unasked", "asker=none", fmt.Sprintf("connection not usable after response #%d (closed=%v eof=%v err=%q) although nobody asked to close", sent-1, v.Closed, v.EOF, v.Err))
 	}
 	// after the last expected response
-	if parsed == p.Last+1 {
+	if parsed == p.Last+1 && !p.Trunc {
 		rest := v.Data[off:]
 		asker := "asker=" + closeAsker(p.Reqs[p.Last], p.Ress[p.Last])
 		if len(rest) > 0 {
@@ -295,6 +313,9 @@ func evaluate(r *vh.Run, c connCase, p *plan, v h1x.View, got []h1x.Received, se
 			}
 			if c.Kind == "aged" {
 				tr = "mem-aged-upstream"
+				if p.Pipelined {
+					tr = "mem-slow-pipeline"
+				}
 			}
 			asker := "none"
 			if i == p.Last {
@@ -316,6 +337,9 @@ func evaluate(r *vh.Run, c connCase, p *plan, v h1x.View, got []h1x.Received, se
 			if p.Long {
 				pos = "long-" + strconv.Itoa(i/16*16) + "+"
 			}
+			if len(s.Headers) > 30 {
+				rf += "(head>" + sizeBucket(headBytes(s)) + ")"
+			}
 			if q.Method != strings.ToUpper(q.Method) {
 				qf += "(mixed-case-method)"
 			}
@@ -329,6 +353,9 @@ func evaluate(r *vh.Run, c connCase, p *plan, v h1x.View, got []h1x.Received, se
 			}
 			r.Count("response_body_bytes_compared", int64(len(s.Body)))
 			r.Count("header_values_compared", int64(len(q.Headers)+len(s.Headers)+1))
+		}
+		if p.Trunc {
+			r.Class("client-unfinished-upload|" + p.Reqs[p.Last].Framing + "|" + p.TruncReg + "|" + map[bool]string{true: "pipelined", false: "seq"}[p.Pipelined])
 		}
 		if p.Pipelined && len(p.Reqs) > p.Last+1 {
 			r.Class("pipelined-requests-after-close-dropped")
@@ -347,4 +374,12 @@ func closeAskerBefore(p *plan, i int) string {
 		}
 	}
 	return "none"
+}
+
+func headBytes(s *resSpec) int {
+	n := 0
+	for _, l := range s.Raw {
+		n += len(l) + 2
+	}
+	return n
 }
